@@ -31,9 +31,9 @@ SHARD_TIMEOUT = {"quick": 1800, "thorough": 7200}
 
 def plan(tier, seed):
     n = 14 if tier == "quick" else 40
-    per = 14 if tier == "quick" else 30
+    per = 14 if tier == "quick" else 80
     s = [{"kind": "api", "sub": i, "cases": per} for i in range(n)]
-    s += [{"kind": "cli", "sub": i, "cases": 6 if tier == "quick" else 14} for i in range(4 if tier == "quick" else 8)]
+    s += [{"kind": "cli", "sub": i, "cases": 6 if tier == "quick" else 14} for i in range(4 if tier == "quick" else 16)]
     return s
 
 
